@@ -173,6 +173,33 @@ class RecordLaws(Unit):
         # a record of another type never compares equal
         other = PositionAndLook() if cls is not PositionAndLook else MapPacket.MapIcon(0, 0, (0, 0))
         E.check('record.type-sensitive', I.equals(a, other) is False)
+        # partially initialised records (a slot left unset - PlayerProperty without a signature, a fresh PositionAndLook -
+        # or explicitly None): WHENEVER == answers True, the hashes agree (seeded change C20-r9: == reads an unset slot as
+        # None while hash skips it)
+        if slots:
+            k = E.fork(len(slots), 'special-slot')
+            sa, sb = E.fork(3, 'a-slot-state'), E.fork(3, 'b-slot-state')      # value / None / unset
+            if sa or sb:
+                a2, b2 = cls.__new__(cls), cls.__new__(cls)
+                for j, sl in enumerate(slots):
+                    for obj, vals, st in ((a2, va, sa), (b2, vb, sb)):
+                        if j != k or st == 0:
+                            setattr(obj, sl, vals[sl])
+                        elif st == 1:
+                            setattr(obj, sl, None)
+                try:
+                    eq2 = I.equals(a2, b2)
+                except PyRaise:
+                    eq2 = None               # comparing raises (an unset slot was read): no claim
+                if eq2 is not None:
+                    try:
+                        h1, h2 = I.call(raw(MutableRecord, '__hash__'), a2), I.call(raw(MutableRecord, '__hash__'), b2)
+                        agree = (h1 == h2)
+                    except PyRaise:
+                        agree = False
+                    E.check('record.eq-implies-hash[partial]', Implies(eq2, agree) if not isinstance(eq2, bool) else
+                            (agree if eq2 else True),
+                            note='slot %s: a %s, b %s' % (slots[k], ('set', 'None', 'unset')[sa], ('set', 'None', 'unset')[sb]))
         return None
 
     def replay(self, model, label):
@@ -204,6 +231,25 @@ def replay_records(rng=None):
             if (a == b) is not want or (a != b) is want or (want and hash(a) != hash(b)) or list(a) != vals:
                 return dict(confirmed=True, n=n, call='%s with slots %r / %r' % (cls.__name__, vals, vals_b),
                             observed='==: %r, !=: %r, hashes %r %r' % (a == b, a != b, hash(a), hash(b)))
+        # partially initialised: one slot unset on one side and None (or unset) on the other
+        for sl in slots:
+            for st_a, st_b in ((2, 1), (1, 2), (2, 2), (1, 1)):
+                n += 1
+                a, b = cls.__new__(cls), cls.__new__(cls)
+                for t in slots:
+                    for obj, st in ((a, st_a), (b, st_b)):
+                        if t != sl:
+                            setattr(obj, t, 7)
+                        elif st == 1:
+                            setattr(obj, t, None)
+                try:
+                    same = (a == b)
+                except AttributeError:
+                    continue
+                if same and hash(a) != hash(b):
+                    return dict(confirmed=True, n=n, call='%s, slot %s %s on one record and %s on the other, all other slots 7'
+                                % (cls.__name__, sl, ('', 'None', 'unset')[st_a], ('', 'None', 'unset')[st_b]),
+                                observed='a == b is True but hash(a) != hash(b): one is not found in a set / dict holding the other')
     return dict(confirmed=False, n=n, call='record laws', observed='conform')
 
 
